@@ -235,6 +235,20 @@ func checkC06(c *km.Ctx) {
 	checkAuthBits(c, s, checkAuth, "R-C06-5")
 	checkIPCodec(c, s, "R-C06-6")
 	checkExtractRequiresExtension(c, s, "R-C06-6")
+	// "... the verifier accepts only on Contains(peer)": C11's obligations on the verdict of
+	// VerifyIPRestrictedX509CertIP, borrowed
+	if r.Remap == nil {
+		r.Remap = func(rule, fn, construct string) (string, bool) {
+			if rule == "R-C11-1" && (construct == "accepting return" || construct == "computed verdict" || strings.Contains(construct, "accepting return of VerifyIPRestrictedX509CertIP")) {
+				return "R-C06-6", true
+			}
+			return "", false
+		}
+		saveExplain, saveND, saveAs := r.Explain, r.NotDecided, r.Assume
+		checkC11(c)
+		r.Explain, r.NotDecided, r.Assume = saveExplain, saveND, saveAs
+		r.Remap = nil
+	}
 }
 
 // authTypeConsts reads the AuthType* constants of package main.
